@@ -2,12 +2,13 @@
 EXTENDS Integers, Sequences, TLC, Json, IOUtils
 CONSTANTS Vouchers, BackDenoms, HookReturnsAck
 Trace == ndJsonDeserialize(IOEnv.TRACE_FILE)
-VARIABLES l, enabled, vbal, esc, sup, tok, registered, pairon, ext, xreg, xbad, mx, out, last
+VARIABLES l, enabled, vbal, esc, sup, tok, registered, pairon, ext, xreg, xbad, mx, out, last,
+          gOn, gPair   \* ground truth kept by the trace: what governance set the module switch to, and the per-pair switch as its proposals left it
 AmtClasses == {}
 RecvClasses == {}
 INSTANCE ICS20
 ln(k) == Trace[k]
-TInit == l = 0 /\ enabled = TRUE /\ vbal = <<>> /\ esc = <<>> /\ sup = <<>> /\ tok = <<>> /\ registered = <<>> /\ pairon = <<>> /\ ext = <<>> /\ xreg = FALSE /\ xbad = FALSE /\ mx = 0 /\ out = <<>> /\ last = [act |-> "None", res |-> "ok"]
+TInit == l = 0 /\ enabled = TRUE /\ vbal = <<>> /\ esc = <<>> /\ sup = <<>> /\ tok = <<>> /\ registered = <<>> /\ pairon = <<>> /\ ext = <<>> /\ xreg = FALSE /\ xbad = FALSE /\ mx = 0 /\ out = <<>> /\ gOn = TRUE /\ gPair = [d \in Vouchers |-> FALSE] /\ last = [act |-> "None", res |-> "ok"]
 Report(k, name, holds) == holds \/ PrintT(<<"VIOL", k, name>>)
 IsStep(k) == ln(k).ev # "Reset"
 A(k) == ln(k).args
@@ -24,6 +25,8 @@ Judge(k) ==
         \/ (vbal'[D(k)] = vbal[D(k)] /\ tok'[D(k)] = tok[D(k)] + N(k) /\ esc'[D(k)] = esc[D(k)] + N(k))
         (* pair of an external token: the vouchers are burnt, the tokens come out of the module's holdings *)
         \/ (ext[D(k)] /\ vbal'[D(k)] = vbal[D(k)] /\ tok'[D(k)] = tok[D(k)] + N(k) /\ esc'[D(k)] = esc[D(k)] /\ sup'[D(k)] = sup[D(k)] /\ mx' = mx - N(k)))
+  (* C11 on the IBC call path: no conversion while governance has the module or the pair switched off (or no pair exists) *)
+  /\ Report(k, "C11.HookHonoursSwitches", (ln(k).ev = "Recv" /\ ~(gOn /\ gPair[D(k)])) => (tok'[D(k)] = tok[D(k)] /\ esc'[D(k)] = esc[D(k)]))
   /\ Report(k, "C16.FailedTransferNoEffect", (ln(k).ev = "Recv" /\ ~ln(k).wrapped_success) => UNCHANGED <<vbal, esc, sup, tok>>)
   /\ Report(k, "C16.OtherDenomsUntouched", ln(k).ev = "Recv" => \A d \in Vouchers \ {D(k)} : vbal'[d] = vbal[d] /\ esc'[d] = esc[d] /\ (tok'[d] = tok[d] \/ (ext'[d] /\ ext'[D(k)])))   \* vouchers of one external pair share its token
   (* the outbound direction through the middleware: the transfer application's outcome is the outcome *)
@@ -58,6 +61,11 @@ TNext == LET k == l + 1 IN
   /\ enabled' = ln(k).st.enabled /\ vbal' = F(k, "vbal") /\ esc' = F(k, "esc") /\ sup' = F(k, "sup") /\ tok' = F(k, "tok")
   /\ registered' = F(k, "registered") /\ pairon' = F(k, "pairon") /\ ext' = F(k, "ext") /\ xreg' = ln(k).st.xreg /\ xbad' = ln(k).st.xbad /\ mx' = ln(k).st.mx /\ out' = F(k, "out")
   /\ last' = [act |-> ln(k).ev, res |-> ln(k).res]
+  /\ gOn' = IF ln(k).ev = "Reset" THEN TRUE ELSE IF ln(k).ev = "Param" /\ ln(k).res = "ok" THEN ln(k).args.on ELSE gOn
+  /\ gPair' = IF ln(k).ev = "Reset" THEN [d \in Vouchers |-> FALSE]
+              ELSE IF ln(k).ev \in {"Register", "AddExt"} /\ ln(k).res = "ok" THEN [gPair EXCEPT ![ln(k).args.denom] = TRUE]
+              ELSE IF ln(k).ev = "Toggle" /\ ln(k).res = "ok" THEN [gPair EXCEPT ![ln(k).args.denom] = ~@]
+              ELSE gPair
   /\ Judge(k) /\ Conform(k)
-TSpec == TInit /\ [][TNext]_<<l, vars>>
+TSpec == TInit /\ [][TNext]_<<l, vars, gOn, gPair>>
 =============================================================================
